@@ -112,7 +112,7 @@ func init() {
 	core.Register(&core.Prop{
 		ID:    "C18",
 		Level: "exploration",
-		Rule:  "for encodings {iso-8859-1, windows-1252} x all seven formats: every byte value 0x00-0xFF in every slot (inside a value, as a whole value, next to a delimiter/quote/newline, at the very start/end of the input) and every pair of bytes from the structurally relevant set (bytes decoding to delimiters, quotes, CR, LF, release character, 0xEF 0xBB 0xBF, 0x80-0x9F, 0xFF); inputs crossing the decoder's 4096-byte buffer; UTF-8 BOM x formats x {BOM+data, BOM only, BOM with the default (absent) encoding, the three BOM bytes under each single-byte encoding}; the transcript with 'encoding: E' on the raw bytes must equal the transcript with 'encoding: utf-8' on the bytes converted with the standard code page, and a leading BOM must change nothing and never appear in the output; distinct by (format, encoding, input)",
+		Rule:  "for encodings {iso-8859-1, windows-1252} x all seven formats: every byte value 0x00-0xFF in every slot (inside a value, as a whole value, next to a delimiter/quote/newline, at the very start/end of the input) and every pair of bytes from the structurally relevant set (bytes decoding to delimiters, quotes, CR, LF, release character, 0xEF 0xBB 0xBF, 0x80-0x9F, 0xFF); inputs crossing the decoder's 4096-byte buffer, and a 9000-byte ASCII value with high bytes at every 41st (thorough: every) position; thorough: every pair of bytes 0x00-0xFF inside a value; UTF-8 BOM x formats x {BOM+data, BOM only, BOM with the default (absent) encoding, the three BOM bytes under each single-byte encoding}; the transcript with 'encoding: E' on the raw bytes must equal the transcript with 'encoding: utf-8' on the bytes converted with the standard code page, and a leading BOM must change nothing and never appear in the output; distinct by (format, encoding, input)",
 		Assumptions: []string{
 			"golang.org/x/text/encoding/charmap's batch conversion is the 'standard code page' reference",
 		},
@@ -169,6 +169,34 @@ func init() {
 							in := strings.Replace(it.Slots[0], S, strings.Repeat(string([]byte{b}), n)+string([]byte{0x85, b}), 1)
 							if !try(c18Case{Item: it.Name, Schema: it.Schema, Encoding: enc, Input: []byte(in), Family: "buffer-boundary"}) {
 								return
+							}
+						}
+					}
+					// one or two high bytes at every position of a long ASCII run (the decoder works in 4096-byte
+					// blocks whose output is longer than their input): position sweep
+					for _, b := range []byte{0xE9, 0x80} {
+						step := 41
+						if !c.Quick() {
+							step = 1
+						}
+						for pos := 0; pos < 8300; pos += step {
+							body := []byte(strings.Repeat("ABCDEFGHIJ", 900))
+							body[pos] = b
+							body[(pos*7+13)%len(body)] = b
+							in := strings.Replace(it.Slots[0], S, string(body), 1)
+							if !try(c18Case{Item: it.Name, Schema: it.Schema, Encoding: enc, Input: []byte(in), Family: "high-byte-position-sweep"}) {
+								return
+							}
+						}
+					}
+					if !c.Quick() {
+						// every pair of bytes inside a value
+						for b1 := 0; b1 < 256; b1++ {
+							for b2 := 0; b2 < 256; b2++ {
+								in := strings.Replace(it.Slots[0], S, string([]byte{byte(b1), byte(b2)}), 1)
+								if !try(c18Case{Item: it.Name, Schema: it.Schema, Encoding: enc, Input: []byte(in), Family: "all-byte-pairs"}) {
+									return
+								}
 							}
 						}
 					}
